@@ -150,5 +150,9 @@ Proof.
   repeat split; try reflexivity. unfold pm_ff, pm_dksi. ring.
 Qed.
 
+(* the walk-off length of the closure is (L/2) tan(rho) for EVERY walk-off angle, of either sign *)
+Lemma walkoff_length p : pm_n p = 0.5 * p_L p * tan (p_rho p).
+Proof. unfold pm_n. replace (p_rho p / 1) with (p_rho p) by field. reflexivity. Qed.
+
 Lemma limit_hypotheses_example : 0 < 4e-6 /\ 0 < 9e-6 /\ 0 <= 6.25e-6 /\ (0.00007 <> 0).
 Proof. repeat split; lra. Qed.
